@@ -179,6 +179,7 @@ def evaluate(e, env):
                     try: v_ = evaluate(st_.value, cenv_) if env.get("__depth_const__", 0) < 4 else None
                     except (Unsupported, Raised): break
                     return v_
+        if e.id in env.get("__assigned__", ()): raise Raised("UnboundLocalError", "local variable %r referenced before assignment" % e.id)      # a local of the interpreted function read before it is bound
         raise Unsupported("name %s " % e.id)
     if isinstance(e, ast.IfExp): return evaluate(e.body, env) if evaluate(e.test, env) else evaluate(e.orelse, env)
     if isinstance(e, ast.BoolOp):
@@ -501,6 +502,8 @@ TRUSTED = {
     "bisect": Trusted(__import__("bisect"), ("bisect", "bisect_left", "bisect_right", "insort", "insort_left", "insort_right")),
     "collections": Trusted(__import__("collections"), ("OrderedDict", "defaultdict", "namedtuple", "deque", "Counter")),
     "itertools": Trusted(_BoundedItertools, ("count", "chain", "repeat", "islice", "product")),
+    # the pure string functions of os.path (nothing that looks at the file system or the working directory)
+    "os": {".path": Trusted(__import__("os").path, ("basename", "dirname", "splitext", "join", "normpath", "split", "isabs", "sep")), ".sep": __import__("os").sep, ".linesep": "\n"},
     "operator": Trusted(__import__("operator"), ("attrgetter", "itemgetter", "eq", "ne", "lt", "gt", "le", "ge", "add", "sub", "not_", "is_", "is_not", "contains")),
 }
 _PATTERN_METHODS = ("match", "fullmatch", "search", "sub", "findall", "split", "finditer")
@@ -660,6 +663,17 @@ def _exec(stmts, env, max_steps=2000):
     or dict, return, raise, pass, docstrings) with `evaluate` for the expressions; returns the returned value (None if the
     block falls off its end).  The environment maps names and dotted attribute chains ('self.x.y') to sample values."""
     steps = [0]
+    if stmts:          # names the interpreted body binds somewhere (own statements, not nested functions): reading one before it is bound is an UnboundLocalError
+        names_ = set(); todo_ = list(stmts)
+        while todo_:
+            n_ = todo_.pop()
+            if isinstance(n_, (ast.FunctionDef, ast.Lambda, ast.ClassDef)):
+                if isinstance(n_, (ast.FunctionDef, ast.ClassDef)): names_.add(n_.name)
+                continue
+            if isinstance(n_, ast.Name) and isinstance(n_.ctx, ast.Store): names_.add(n_.id)
+            if isinstance(n_, (ast.ListComp, ast.SetComp, ast.DictComp, ast.GeneratorExp)): continue
+            todo_.extend(ast.iter_child_nodes(n_))
+        env["__assigned__"] = frozenset(names_)
     if "__module__" not in env and stmts:          # the module the interpreted statements stand in (ASTs loaded by sa.util carry parent links): its constants and trusted imports are visible
         m_ = stmts[0]
         while m_ is not None and not isinstance(m_, ast.Module): m_ = getattr(m_, "_parent", None)
